@@ -22,7 +22,7 @@ class _Handle(SFTPHandle):
     def write(self, offset, data):
         _SI.writes_seen += 1
         if _SI.writes_seen in _SI.reject_writes:
-            return paramiko.sftp.SFTP_FAILURE
+            return _SI.reject_code
         return SFTPHandle.write(self, offset, data)
 
     def stat(self):
@@ -43,6 +43,7 @@ class _SI(SFTPServerInterface):
     ROOT = None
     short_reads = None
     reject_writes = ()
+    reject_code = 4
     writes_seen = 0
 
     def _p(self, path):
@@ -104,9 +105,9 @@ _KEY = None
 
 
 class Loop:
-    def __init__(self, short_reads=None, reject_writes=()):
+    def __init__(self, short_reads=None, reject_writes=(), reject_code=4):
         global _KEY
-        _SI.reject_writes, _SI.writes_seen = set(reject_writes), 0
+        _SI.reject_writes, _SI.writes_seen, _SI.reject_code = set(reject_writes), 0, reject_code
         if _KEY is None:
             _KEY = paramiko.ECDSAKey.generate()
         self.root = tempfile.mkdtemp(prefix="sftp_loop_")
